@@ -171,11 +171,17 @@ func (r *DRun) resolve(op *DOp) (seqs []lz.Seq, firstBad int) {
 		case 0:
 			q.Offset = s.O
 		case 1:
-			q.Offset = 1
+			if maxValid >= 1 {
+				q.Offset = 1
+			}
 		case 2:
 			q.Offset = uint32(maxValid)
 		case 3:
-			q.Offset = uint32(maxValid - 1)
+			if maxValid >= 2 {
+				q.Offset = uint32(maxValid - 1)
+			} else {
+				q.Offset = uint32(maxValid)
+			}
 		default:
 			if maxValid > 0 {
 				q.Offset = uint32(int64(s.O)%maxValid) + 1
@@ -295,6 +301,12 @@ func RunDecoderHistory(dc *DCase, st *core.Stats, owned map[string]bool) *DFail 
 				return r.fail
 			}
 			st.Inc("foreign_check_failed:" + r.fail.Check)
+			switch r.fail.Check {
+			case "refused-valid", "count-n", "off":
+				// the content model is still in step: the history goes on
+				r.fail = nil
+				continue
+			}
 			return nil
 		}
 	}
